@@ -391,37 +391,7 @@ func checkC17(p *core.Program, r *core.Report) {
 		})
 	}
 	det, syn := detachedSites(p, fns, mReport)
-	for _, s := range append(append([]core.Site{}, det...), syn...) {
-		arg := core.Common(s.In).Args[0]
-		key := "report argument in " + p.FnName(s.Fn)
-		okCopy := false
-		if call, ok := core.Canon(arg).(*ssa.Call); ok {
-			if callee := call.Call.StaticCallee(); callee != nil && p.PkgShort(callee) == "mdns" {
-				fresh, alias := false, false
-				core.EachInstr(callee, func(in ssa.Instruction) {
-					if ret, ok := in.(*ssa.Return); ok && ret.Block() != callee.Recover && len(ret.Results) == 1 {
-						switch core.Canon(core.ResultOf(ret, 0)).(type) {
-						case *ssa.MakeMap:
-							fresh = true
-						default:
-							alias = true
-						}
-					}
-					if mu, ok := in.(*ssa.MapUpdate); ok {
-						if _, isAlloc := core.Canon(mu.Value).(*ssa.Alloc); !isAlloc {
-							alias = true
-						}
-					}
-				})
-				okCopy = fresh && !alias
-			}
-		}
-		if okCopy {
-			r.OK(R3, key, p.Pos(s.In.Pos()), "a fresh map with freshly allocated entries")
-		} else {
-			r.Fail(R3, key, p.Pos(s.In.Pos()), "the hub is handed the live map or live entries instead of a snapshot copy")
-		}
-	}
+	checkSnapshotCopy(p, r, R3, append(append([]core.Site{}, det...), syn...))
 	r.Floor(R3, 6)
 
 	// ---- R5: every change of the map is followed by a report of a later snapshot
@@ -439,7 +409,8 @@ func checkC17(p *core.Program, r *core.Report) {
 			return false
 		}
 		f, _ := core.LoadedField(bo.X)
-		return f == fReport && truth == (bo.Op == token.EQL)
+		isSink := f == fReport || core.TypeIs(bo.X.Type(), apiPath, "MdnsReportInterface")
+		return isSink && truth == (bo.Op == token.EQL)
 	}
 	mayReport := core.NewMay(p, true, func(in ssa.Instruction) bool { return core.IsInvokeOf(in, mReport) })
 	isMod := func(in ssa.Instruction) bool {
@@ -483,4 +454,40 @@ func calleeShort(p *core.Program, in ssa.Instruction) string {
 		return c.StaticCallee().Name()
 	}
 	return "direct"
+}
+
+// checkSnapshotCopy: the map handed to ReportMdnsEntries is a fresh map with
+// freshly allocated entries (deep copy), never the live map / live entries.
+func checkSnapshotCopy(p *core.Program, r *core.Report, R3 string, sites []core.Site) {
+	for _, s := range sites {
+		arg := core.Common(s.In).Args[0]
+		key := "report argument in " + p.FnName(s.Fn)
+		okCopy := false
+		if call, ok := core.Canon(arg).(*ssa.Call); ok {
+			if callee := call.Call.StaticCallee(); callee != nil && p.PkgShort(callee) == "mdns" {
+				fresh, alias := false, false
+				core.EachInstr(callee, func(in ssa.Instruction) {
+					if ret, ok := in.(*ssa.Return); ok && ret.Block() != callee.Recover && len(ret.Results) == 1 {
+						switch core.Canon(core.ResultOf(ret, 0)).(type) {
+						case *ssa.MakeMap:
+							fresh = true
+						default:
+							alias = true
+						}
+					}
+					if mu, ok := in.(*ssa.MapUpdate); ok {
+						if _, isAlloc := core.Canon(mu.Value).(*ssa.Alloc); !isAlloc {
+							alias = true
+						}
+					}
+				})
+				okCopy = fresh && !alias
+			}
+		}
+		if okCopy {
+			r.OK(R3, key, p.Pos(s.In.Pos()), "a fresh map with freshly allocated entries")
+		} else {
+			r.Fail(R3, key, p.Pos(s.In.Pos()), "the hub is handed the live map or live entries instead of a snapshot copy")
+		}
+	}
 }
